@@ -4,9 +4,11 @@ pub mod c02;
 pub mod c07;
 pub mod c08;
 pub mod c10;
+pub mod c11;
 pub mod c12;
 pub mod c14;
 pub mod c17;
+pub mod c18;
 pub mod c19;
 pub mod c20;
 
@@ -23,10 +25,23 @@ pub fn table() -> Vec<(&'static str, CheckFn, ReplayFn)> {
         ("C07", c07::check, c07::replay),
         ("C08", c08::check, c08::replay),
         ("C10", c10::check, c10::replay),
+        ("C11", c11::check, c11::replay),
         ("C12", c12::check, c12::replay),
         ("C14", c14::check, c14::replay),
         ("C17", c17::check, c17::replay),
+        ("C18", c18::check, c18::replay),
         ("C19", c19::check, c19::replay),
         ("C20", c20::check, c20::replay),
     ]
+}
+
+pub fn worker(prop: &str, grid: &str, from: u64, to: u64) {
+    match prop {
+        "C11" => c11::worker(grid, from, to),
+        "C18" => c18::worker(grid, from, to),
+        _ => {
+            eprintln!("no worker for {prop}");
+            std::process::exit(3)
+        }
+    }
 }
